@@ -206,6 +206,11 @@ def run_unit(unit, st, tier):
     for low in [[j] for j in range(k + 1)] + [list(range(k + 1))]:
         st.goal("lower-case-participant")
         one(dict(base, lower=low), True)
+    # bound 2: spelling x rotation of one plasmid (the rotated plasmid in lower case; and everything in lower case)
+    for which in range(k + 1):
+        for s2 in rotations_of(base, which, goals=False):
+            one(dict(s2, lower=[which]), True)
+            one(dict(s2, lower=list(range(k + 1))), True)
     # bound 1: annotated participants (features of every unusual but legal shape); bound 2: annotated x rotation of one plasmid
     one(dict(base, decor=1), True, outcome="product-or-violation/annotated")
     st.goal("annotated-participants")
